@@ -6,7 +6,8 @@
    unregistered) before the NEXT kernel wait is entered -- whatever that next wait's timeout is, in particular when
    it is the zero-timeout poll made because tasks are pending (a chain of self-re-registering tasks does not keep due
    timers from running).  A wait that was interrupted (EINTR) creates no obligation: on the epoll-timerfd method the
-   loop deliberately goes straight back to the kernel when the deadline lives in the kernel timer. *)
+   loop deliberately goes straight back to the kernel when the deadline lives in the kernel timer.
+   The same obligation holds when iv_main RETURNS (TEnd) instead of entering another wait. *)
 From Coq Require Import List ZArith Bool.
 From Ivv Require Import Core.Kernel Core.CoreTypes.
 Import ListNotations.
@@ -34,6 +35,10 @@ Definition f_step (m : fmon) (e : tev) : fmon :=
       mkF (f_reg m) (f_exp m) (filter (fun j => f_reg m j && (f_exp m j <=? clk)) all_timers) (f_fail m)
   | TRet None _ _ => mkF (f_reg m) (f_exp m) [] (f_fail m)
   | TWait _ _ _ _ _ _ =>
+      mkF (f_reg m) (f_exp m) (f_due m) (f_fail m || match f_due m with [] => false | _ => true end)
+  | TEnd _ _ =>
+      (* iv_main returns (iv_quit, or nothing left): the timers that were due at the last wake-up have all run -- a
+         quit from one timer's handler does not abandon the rest of the expired batch *)
       mkF (f_reg m) (f_exp m) (f_due m) (f_fail m || match f_due m with [] => false | _ => true end)
   | _ => m
   end.
